@@ -1368,7 +1368,16 @@ func judgeServedForbidden(r *Run, j *Judged, c *cls) {
 // ---------------- C17 (whole stack): a tampered encrypted entry is a miss ----------------
 
 func judgeTamper(r *Run, j *Judged, cl []*cls) {
-	if r.Scn.Backend != "fsenc" || len(r.Corrupted) == 0 {
+	if r.Scn.Backend != "fsenc" {
+		return
+	}
+	if a, b, n := r.cipherTwins(); n >= 2 {
+		j.count("C17", "deterministic-ciphertext")
+		if a != "" {
+			j.fail("C17", "deterministic-ciphertext", nil, "files", "two files written by the encrypting backend, %s and %s, received byte-identical contents", a, b)
+		}
+	}
+	if len(r.Corrupted) == 0 {
 		return
 	}
 	for _, cr := range r.Corrupted {
